@@ -66,8 +66,22 @@ def enter (c : Ctx α) : Ctx α := { c with depth := c.depth + 1 }
     let c := { c with log := c.log ++ [a] }
     leaveRec ((body a).foldl (push q) (enter c))) c
 
+/-- `run_pre_eot`: the closures queued for the end of the transaction, and those they queue meanwhile (`pushes a`: what
+    running `a` inside the closing transaction queues — a switch built by the mapping function that a switch's set-up
+    closure forces), until the queue is empty -/
+def runPre (q : α → Queue) (pushes : α → List α) : Nat → Ctx α → Ctx α
+  | 0, c => { c with oof := true }
+  | fuel + 1, c =>
+    match c.preEot with
+    | [] => c
+    | pre =>
+      let c := { c with preEot := [] }
+      let c := pre.foldl (fun c a => (pushes a).foldl (push q) { c with log := c.log ++ [a] }) c
+      runPre q pushes fuel c
+
 /-- `leave_transaction` followed, when the depth returns to 0, by `end_of_transaction`.
-    `upd` = closures pushed by the propagation itself (the drain loop). -/
+    `upd` = closures pushed by the propagation itself (the drain loop); the pre_eot closures among them (a cell or a
+    switch built by a handler) are run before `pre_post` (since R12). -/
 def leave (q : α → Queue) (body : α → List α) (upd : List α) : Nat → Ctx α → Ctx α
   | 0, c => { c with oof := true }
   | fuel + 1, c =>
@@ -76,9 +90,9 @@ def leave (q : α → Queue) (body : α → List α) (upd : List α) : Nat → C
     else
       -- end_of_transaction
       let c := { c with depth := c.depth + 1, allow := c.allow + 1, eots := c.eots + 1 }
-      let pre := c.preEot
-      let c := { c with preEot := [], log := c.log ++ pre }
+      let c := runPre q (fun a => if q a = .preEot then body a else []) (fuel + 1) c
       let c := upd.foldl (push q) c                    -- drain loop
+      let c := runPre q (fun a => if q a = .preEot then body a else []) (fuel + 1) c
       let c := { c with depth := c.depth - 1 }
       let pp := c.prePost
       let c := { c with prePost := [], log := c.log ++ pp }
